@@ -1306,3 +1306,30 @@ type ('vS, 'vr) report_res =
 val report_with_fuel : nat -> ('a1, 'a2) tree -> ('a1, 'a2) report_res
 
 val report_steps : ('a1, 'a2) tree -> ('a1, 'a2) report_res
+
+type ('vS, 'vr) tprovider = { p_cancel : (('vS, 'vr) event list -> bool);
+                              p_prio : (('vS, 'vr) event list -> pkg0 -> 'vS
+                                       -> z);
+                              p_choose : (('vS, 'vr) event list -> pkg0 ->
+                                         'vS -> 'vr choose_ans);
+                              p_deps : (('vS, 'vr) event list -> pkg0 -> 'vr
+                                       -> 'vS deps_ans) }
+
+val gen_prioritize :
+  ('a1, 'a2) tprovider -> (pkg0 * 'a1) list -> (pkg0 * (z * 'a1)) list ->
+  ('a1, 'a2) event list -> (pkg0 * (z * 'a1)) list * ('a1, 'a2) event list
+
+val res_out_g :
+  'a1 pick_info list -> nat -> 'a3 res -> ('a3 -> ('a1, 'a2) result * ('a1,
+  'a2) event list) -> ('a1, 'a2) state -> ('a1, 'a2) event list -> ('a1, 'a2)
+  result * ('a1, 'a2) event list
+
+val resolve_loop_g :
+  ('a1, 'a2) vSOps -> ('a2 -> 'a2 -> bool) -> ('a1, 'a2) tprovider -> nat ->
+  ('a1, 'a2) state -> pkg0 -> (pkg0 * 'a2) list -> pkg0 heap -> ('a1, 'a2)
+  event list -> 'a1 pick_info list -> ('a1, 'a2) result * ('a1, 'a2) event
+  list
+
+val resolve_g :
+  ('a1, 'a2) vSOps -> ('a2 -> 'a2 -> bool) -> ('a1, 'a2) tprovider -> nat ->
+  pkg0 -> 'a2 -> ('a1, 'a2) result * ('a1, 'a2) event list
